@@ -205,8 +205,10 @@ type Batch struct {
 
 func (s *Store) NewBatch(ctx storage.Context) storage.Batch { return &Batch{s: s, ctx: ctx} }
 
+// Put: like DVID's Badger batch, the value slice is referenced (not copied) until Commit - a caller that reuses the
+// buffer before committing sees the later content stored.  The key is built from a copy of tk at once, as there.
 func (b *Batch) Put(tk storage.TKey, v []byte) {
-	b.ops = append(b.ops, batchOp{tk: append(storage.TKey{}, tk...), v: append([]byte{}, v...)})
+	b.ops = append(b.ops, batchOp{tk: append(storage.TKey{}, tk...), v: v})
 }
 func (b *Batch) Delete(tk storage.TKey) {
 	b.ops = append(b.ops, batchOp{del: true, tk: append(storage.TKey{}, tk...)})
